@@ -226,7 +226,11 @@ def run_schedule(model, sched, log, res, want_results=True):
     files = {model["table"]["path"]: modelgen.csv_text(model["table"])}
     fs = SimFS(log, res, files=files, dirs=[modelgen.WORK])
     out = {"text": text, "ledger": ledger, "nodes": nodes, "results": {}, "error": None, "fs": fs}
-    mon = ExecMonitor(log)
+    def runaway(key, depth):
+        res.violate("C02.runaway", "C02.runaway unbounded-nesting",
+                    "execute nesting reached %d in a model of %d commands (command %s)" % (depth, len(cmds), key))
+
+    mon = ExecMonitor(log, nesting_cap=len(cmds) + 3, on_runaway=runaway)
     out["monitor"] = mon
     log.emit("schedule", kind=sched.get("kind"), order=sched.get("order"), history=sched.get("history"))
     with fs, StdCapture(log) as cap:
@@ -248,7 +252,8 @@ def run_schedule(model, sched, log, res, want_results=True):
                         continue
                     out["results"][c["name"]] = extract(program.commands[c["name"]].result)
         except SimAbort:
-            raise
+            out["aborted"] = True
+            log.emit("pipeline-abort")
         except Exception as exc:
             out["error"] = exc
             log.emit("pipeline-raise", exc=type(exc).__name__)
@@ -310,6 +315,8 @@ def execute(sc):
             out = run_schedule(model, sched, log, res)
             order = [ev[1]["cmd"] for ev in log.events if ev[0] == "exec-enter"]
             res.state_keys.add(h64([si, order[-len(cmds):]]))
+            if out.get("aborted"):
+                continue
             if out["error"] is not None:
                 node, label = describe_error(out["error"], out)
                 cname = node["name"] if node else None
